@@ -37,6 +37,7 @@ Record sim_case := {
   sc_devs : dev_table;
   sc_num : Z; sc_den : Z;
   sc_initial : Z;
+  sc_pre : list comp;          (* interrupts published before the scheduler started *)
   sc_stim : list stimulus;
   sc_end : Z;
   sc_observed : list (comp * list (Z * values));  (* per device: (time, inputs) in order *)
@@ -46,7 +47,7 @@ Record sim_case := {
 }.
 
 Definition model_run (c : sim_case) : mstate :=
-  simulate_full (sc_cfg c) (table_dev (sc_devs c)) (sc_num c) (sc_den c) 8 4000 (sc_initial c) (sc_stim c) (sc_end c).
+  simulate_full (sc_cfg c) (table_dev (sc_devs c)) (sc_num c) (sc_den c) 8 4000 (sc_initial c) (sc_pre c) (sc_stim c) (sc_end c).
 Definition model_obs (c : sim_case) : list obs := m_obs (model_run c).
 
 Definition obs_of (d : comp) (l : list obs) : list (Z * values) :=
